@@ -57,6 +57,10 @@ def obligations(tier):
                                   ("v{year}{month}{dom}.{bid}", "dom", "dom", [1, 31])):
         extra = {"pattern": pat, "cfield": field, "cpart": part, "crange": rng}
         obs.append(Ob(f"L1.roundtrip_calendar_part[{pat}]", "c20.py", "roundtrip_calendar_part", extra, timeout=t))
+    for pin in (False, True):
+        obs.append(Ob(f"L2.incr_doy[v{{year}}d{{doy}}.{{bid}}{{release}}; pin-date {pin}]", "c20.py", "incr_doy",
+                      {"pattern": "v{year}d{doy}.{bid}{release}", "fix": {"pin_date": pin, "bidv": 1998}}, timeout=2 * t,
+                      bounds="any two dates 2000..2099"))
     obs.append(Ob("L2.legacy_gate[{semver}]", "c20.py", "legacy_gate", {"hi1": 9 if tier == "quick" else 99}, timeout=t))
     obs.append(Ob("L3.dispatch_consistent", "c20.py", "dispatch_consistent", {}, timeout=t))
     obs.append(Ob("L3.tag_num_refused", "c20.py", "tag_num_refused", {}, timeout=t))
